@@ -32,6 +32,9 @@ type Unit struct {
 	Gen       string            `json:"gen"`       // generator to run before loading (produces Files)
 	Shards    int               `json:"shards"`
 	Optional  bool              `json:"optional"`
+	XCheck    int               `json:"xcheck"`     // cross-validate this many sampled paths per harness natively
+	XFlags    []string          `json:"xflags"`     // go test flags for the native run
+	XInstr    []string          `json:"xinstrument"` // files whose atomics are scheduling points
 	VirtFiles map[string]string `json:"virt_files"` // virtual file (relative to repo) -> repo file it is a copy of
 }
 
@@ -100,6 +103,8 @@ type JobResult struct {
 	Queries    map[string]string `json:"queries"`
 	Distinct   int               `json:"distinct_queries"`
 	SolverErrs int               `json:"solver_errors"`
+	Samples    []*XSample        `json:"samples"`
+	UnitIdx    int               `json:"unit_idx"`
 }
 
 var verifRoot = "/verif"
@@ -278,6 +283,7 @@ func runJob(job *Job) *JobResult {
 	}
 	u := &cfg.Units[job.UnitIdx]
 	res.Unit = u.Name
+	res.UnitIdx = job.UnitIdx
 	arch := u.Arch
 	if arch == "" {
 		arch = "amd64"
@@ -328,6 +334,7 @@ func runJob(job *Job) *JobResult {
 	res.InitNotes = in.runInits(ld, allow)
 	in.fnsSeen = map[string]int{}
 	in.stubsSeen = map[string]int{}
+	in.xWanted = u.XCheck
 	deadline := time.Now().Add(time.Duration(job.Deadline) * time.Second)
 	for _, hn := range job.Harness {
 		fn, ok := ld.Harness[hn]
@@ -347,6 +354,10 @@ func runJob(job *Job) *JobResult {
 				hd = d
 			}
 		}
+		in.xWanted = u.XCheck
+		if ld.Opts[hn]["xcheck"] == "off" {
+			in.xWanted = 0
+		}
 		in.violations = nil
 		in.seenViol = map[string]bool{}
 		in.assertIDs = map[string]bool{}
@@ -360,6 +371,7 @@ func runJob(job *Job) *JobResult {
 	res.Queries = in.queryDump
 	res.Distinct = len(in.queryHashes)
 	res.SolverErrs = sv.Errors
+	res.Samples = in.xsamples
 	return res
 }
 
@@ -627,6 +639,27 @@ func finish(id string, cfg *CheckConfig, tier string, seed int64, results []*Job
 			samples = append(samples, map[string]interface{}{"harness": s.Name, "bounds": s.Bounds, "paths": s.Paths, "first_path": s.Sample, "assert_ids": s.AssertIDs, "reach_witnesses": s.Reached})
 		}
 	}
+	// native cross-validation of sampled paths
+	xOK, xFail := 0, 0
+	if !noReplay {
+		byUnit := map[int][]*XSample{}
+		for _, r := range results {
+			if r != nil {
+				byUnit[r.UnitIdx] = append(byUnit[r.UnitIdx], r.Samples...)
+			}
+		}
+		for ui, ss := range byUnit {
+			if len(ss) == 0 {
+				continue
+			}
+			ok, fail, msg := crossValidate(id, &cfg.Units[ui], ss, repo)
+			xOK += ok
+			xFail += fail
+			if fail > 0 || msg != "" {
+				problems = append(problems, fmt.Sprintf("ENCODING-MISMATCH: native cross-validation of unit %s: %d sample(s) disagree %s", cfg.Units[ui].Name, fail, msg))
+			}
+		}
+	}
 	// replay and classify violations
 	exit := 0
 	var lines []string
@@ -702,6 +735,7 @@ func finish(id string, cfg *CheckConfig, tier string, seed int64, results []*Job
 		"problems":            problems,
 		"init_notes":          initNotes,
 		"replays_run":         replayed,
+		"native_cross_validated_paths": xOK,
 		"violations_detail":   viols,
 		"known_lines":         lines,
 	}
@@ -714,7 +748,7 @@ func finish(id string, cfg *CheckConfig, tier string, seed int64, results []*Job
 		}
 		cov["states"] = states
 		cov["transitions"] = transitions
-		cov["traces_validated_against_impl"] = replayed
+		cov["traces_validated_against_impl"] = replayed + xOK
 	}
 	ev := map[string]interface{}{
 		"property_id": id,
